@@ -275,6 +275,20 @@ qb_ipcs_shm_disconnect(struct qb_ipcs_connection *c)
 		goto end_disconnect;
 	}
 
+	/*
+	 * The socket first: closing a ring the client has truncated jumps
+	 * to the end, and the main loop must not keep a descriptor that
+	 * dispatches to a connection on its way out.
+	 */
+	if (c->state == QB_IPCS_CONNECTION_ESTABLISHED ||
+	    c->state == QB_IPCS_CONNECTION_ACTIVE) {
+		if (c->setup.u.us.sock >= 0) {
+			(void)c->service->poll_fns.dispatch_del(c->setup.u.us.sock);
+			qb_ipcc_us_sock_close(c->setup.u.us.sock);
+			c->setup.u.us.sock = -1;
+		}
+	}
+
 	if (c->state == QB_IPCS_CONNECTION_SHUTTING_DOWN ||
 	    c->state == QB_IPCS_CONNECTION_ACTIVE) {
 		if (c->response.u.shm.rb) {
@@ -285,15 +299,6 @@ qb_ipcs_shm_disconnect(struct qb_ipcs_connection *c)
 		}
 		if (c->request.u.shm.rb) {
 			qb_rb_close(qb_rb_lastref_and_ret(&c->request.u.shm.rb));
-		}
-	}
-
-	if (c->state == QB_IPCS_CONNECTION_ESTABLISHED ||
-	    c->state == QB_IPCS_CONNECTION_ACTIVE) {
-		if (c->setup.u.us.sock >= 0) {
-			(void)c->service->poll_fns.dispatch_del(c->setup.u.us.sock);
-			qb_ipcc_us_sock_close(c->setup.u.us.sock);
-			c->setup.u.us.sock = -1;
 		}
 	}
 
